@@ -190,7 +190,7 @@ func VJSONLoad(g VJSON) {
 	}
 	switch {
 	case class == 2:
-		v.Assert(len(ax) == 0, "C12:null-leaves-prior-content")
+		v.Assert(len(ax) == 0, "C12,C06:null-leaves-prior-content")
 	case class == wantKind && bad < 0:
 		if g.Bidi {
 			// the surviving pairs of a one-to-one load depend on Go's map iteration order when values collide;
@@ -206,13 +206,13 @@ func VJSONLoad(g VJSON) {
 			}
 			if distinct {
 				ek, ex := g.Ref(keys, vals)
-				vSameContent(g, ak, ax, ek, ex, "C12:loaded-content")
+				vSameContent(g, ak, ax, ek, ex, "C12,C06:loaded-content")
 			} else {
-				v.Assert(len(ax) <= len(dk), "C12:prior-content-survived")
+				v.Assert(len(ax) <= len(dk), "C12,C06,C10:prior-content-survived")
 			}
 		} else {
 			ek, ex := g.Ref(keys, vals)
-			vSameContent(g, ak, ax, ek, ex, "C12:loaded-content")
+			vSameContent(g, ak, ax, ek, ex, "C12,C06:loaded-content")
 		}
 	default:
 		v.Assert(false, "C12:accepted-a-document-of-the-wrong-kind-or-type")
